@@ -70,6 +70,18 @@ func mkSink(i, outcome int) *fsink {
 
 const nOutcomes = 5
 
+// annotation options of the Logger: each makes Logger.check take another path to the entry it hands out
+var loggerOptSets = []struct {
+	name string
+	opts []zap.Option
+}{
+	{"", nil},
+	{" [AddCaller]", []zap.Option{zap.AddCaller()}},
+	{" [AddCaller, AddStacktrace(debug)]", []zap.Option{zap.AddCaller(), zap.AddStacktrace(zapcore.DebugLevel)}},
+	{" [AddCaller, AddCallerSkip(1000): no frame to report]", []zap.Option{zap.AddCaller(), zap.AddCallerSkip(1000)}},
+	{" [AddStacktrace(debug), AddCallerSkip(1000): no frame to report]", []zap.Option{zap.AddStacktrace(zapcore.DebugLevel), zap.AddCallerSkip(1000)}},
+}
+
 var hungOutsideScheduler bool
 var stuckTopo = map[string]int{}
 
@@ -106,175 +118,181 @@ func sinkFaults(run *ev.Run, maxK int) (evals int, distinct map[string]bool) {
 			}
 			for v := 0; v < total; v++ {
 				for _, mode := range modes {
-					lvl := mode.lvl
-					sinks := make([]*fsink, k)
-					x := v
-					label := ""
-					for i := range sinks {
-						sinks[i] = mkSink(i, x%nOutcomes)
-						label += fmt.Sprint(x % nOutcomes)
-						x /= nOutcomes
-					}
-					var core zapcore.Core
-					if topo == "tee" || topo == "teewrap" || topo == "tee-locked" {
-						cores := make([]zapcore.Core, k)
-						for i, s := range sinks {
-							var ws zapcore.WriteSyncer = s
-							if topo == "tee-locked" {
-								ws = zapcore.Lock(s) // the usual way to hand a sink to a core: a lock kept on an error path blocks the next entry
+					for lo, lopt := range loggerOptSets {
+						if lo > 0 && (k > 2 || mode.direct != "") {
+							continue // the annotation options on the smaller vectors, through the Logger front ends
+						}
+						lvl := mode.lvl
+						sinks := make([]*fsink, k)
+						x := v
+						label := ""
+						for i := range sinks {
+							sinks[i] = mkSink(i, x%nOutcomes)
+							label += fmt.Sprint(x % nOutcomes)
+							x /= nOutcomes
+						}
+						var core zapcore.Core
+						if topo == "tee" || topo == "teewrap" || topo == "tee-locked" {
+							cores := make([]zapcore.Core, k)
+							for i, s := range sinks {
+								var ws zapcore.WriteSyncer = s
+								if topo == "tee-locked" {
+									ws = zapcore.Lock(s) // the usual way to hand a sink to a core: a lock kept on an error path blocks the next entry
+								}
+								cores[i] = zapcore.NewCore(enc(), ws, zapcore.DebugLevel)
 							}
-							cores[i] = zapcore.NewCore(enc(), ws, zapcore.DebugLevel)
-						}
-						core = zapcore.NewTee(cores...)
-						if topo == "teewrap" {
-							// a user-written decorator core: it registers ITSELF in Check and
-							// forwards Write / Sync, so the tee is reached through its Write method
-							core = fwdCore{core}
-						}
-					} else {
-						wss := make([]zapcore.WriteSyncer, k)
-						for i, s := range sinks {
-							wss[i] = s
-						}
-						if topo == "combine" {
-							core = zapcore.NewCore(enc(), zap.CombineWriteSyncers(wss...), zapcore.DebugLevel)
+							core = zapcore.NewTee(cores...)
+							if topo == "teewrap" {
+								// a user-written decorator core: it registers ITSELF in Check and
+								// forwards Write / Sync, so the tee is reached through its Write method
+								core = fwdCore{core}
+							}
 						} else {
-							core = zapcore.NewCore(enc(), zapcore.NewMultiWriteSyncer(wss...), zapcore.DebugLevel)
-						}
-					}
-					eo := &errOut{}
-					fatals := 0
-					desc := fmt.Sprintf("%s of %d destinations outcomes=%s (0 ok,1 write error,2 short write+error,3 sync error,4 zero count+error) level=%v", topo, k, label, mode.name)
-					key := func(what string) string { return fmt.Sprintf("sinks:%s:%s", topo, what) }
-					// at the moment the terminal action starts (a real Fatal exits there, a panic unwinds
-					// from there) the failure must already have been reported
-					atHook := func() {
-						fatals++
-						rep := eo.b.String()
-						for i, s := range sinks {
-							if s.writeErr != nil && strings.Count(rep, s.writeErr.Error()) < fatals {
-								run.Report(key("write-error-not-reported-before-terminal-action"), fmt.Sprintf("%s: when the terminal action of entry %d started, error %q of destination %d was not yet on the error output: %q", desc, fatals-1, s.writeErr, i, rep), desc)
+							wss := make([]zapcore.WriteSyncer, k)
+							for i, s := range sinks {
+								wss[i] = s
+							}
+							if topo == "combine" {
+								core = zapcore.NewCore(enc(), zap.CombineWriteSyncers(wss...), zapcore.DebugLevel)
+							} else {
+								core = zapcore.NewCore(enc(), zapcore.NewMultiWriteSyncer(wss...), zapcore.DebugLevel)
 							}
 						}
-					}
-					opts := []zap.Option{zap.ErrorOutput(eo), zap.WithFatalHook(hook(atHook))}
-					if mode.goexit {
-						opts[1] = zap.WithFatalHook(zapcore.WriteThenGoexit)
-					}
-					if mode.dev {
-						opts = append(opts, zap.Development())
-					}
-					logger := zap.New(core, opts...)
-					logAll := func() (ok bool) {
-						defer func() {
-							if r := recover(); r != nil {
-								run.Report(key("panic"), desc+": log call panicked: "+fmt.Sprint(r), desc)
-							}
-						}()
-						for e := 0; e < 2; e++ {
-							msg := fmt.Sprintf("entry-%d", e)
-							switch {
-							case mode.goexit:
-								// the call ends its goroutine: make it on one of its own
-								done := make(chan struct{})
-								go func() {
-									defer close(done)
-									logger.Log(lvl, msg, zap.Int("n", e))
-									run.Report(key("goexit-returned"), desc+": Fatal with WriteThenGoexit returned", desc)
-								}()
-								select {
-								case <-done:
-								case <-time.After(30 * time.Second): // reached only when the call hangs (this mode runs outside the controlled scheduler)
-									run.Report(key("call-does-not-return"), desc+": Fatal with WriteThenGoexit neither returned nor ended its goroutine within 30s", desc)
-									hungOutsideScheduler = true
-									return false
+						eo := &errOut{}
+						fatals := 0
+						desc := fmt.Sprintf("%s of %d destinations outcomes=%s (0 ok,1 write error,2 short write+error,3 sync error,4 zero count+error) level=%v%s", topo, k, label, mode.name, lopt.name)
+						key := func(what string) string { return fmt.Sprintf("sinks:%s:%s", topo, what) }
+						// at the moment the terminal action starts (a real Fatal exits there, a panic unwinds
+						// from there) the failure must already have been reported
+						atHook := func() {
+							fatals++
+							rep := eo.b.String()
+							for i, s := range sinks {
+								if s.writeErr != nil && strings.Count(rep, s.writeErr.Error()) < fatals {
+									run.Report(key("write-error-not-reported-before-terminal-action"), fmt.Sprintf("%s: when the terminal action of entry %d started, error %q of destination %d was not yet on the error output: %q", desc, fatals-1, s.writeErr, i, rep), desc)
 								}
-							case mode.panics:
-								func() {
-									defer func() {
-										if r := recover(); r == nil {
-											run.Report(key("no-panic"), desc+": the call returned without panicking", desc)
-										} else if fmt.Sprint(r) != msg {
-											panic(r)
-										}
+							}
+						}
+						opts := []zap.Option{zap.ErrorOutput(eo), zap.WithFatalHook(hook(atHook))}
+						opts = append(opts, lopt.opts...)
+						if mode.goexit {
+							opts[1] = zap.WithFatalHook(zapcore.WriteThenGoexit)
+						}
+						if mode.dev {
+							opts = append(opts, zap.Development())
+						}
+						logger := zap.New(core, opts...)
+						logAll := func() (ok bool) {
+							defer func() {
+								if r := recover(); r != nil {
+									run.Report(key("panic"), desc+": log call panicked: "+fmt.Sprint(r), desc)
+								}
+							}()
+							for e := 0; e < 2; e++ {
+								msg := fmt.Sprintf("entry-%d", e)
+								switch {
+								case mode.goexit:
+									// the call ends its goroutine: make it on one of its own
+									done := make(chan struct{})
+									go func() {
+										defer close(done)
+										logger.Log(lvl, msg, zap.Int("n", e))
+										run.Report(key("goexit-returned"), desc+": Fatal with WriteThenGoexit returned", desc)
 									}()
+									select {
+									case <-done:
+									case <-time.After(30 * time.Second): // reached only when the call hangs (this mode runs outside the controlled scheduler)
+										run.Report(key("call-does-not-return"), desc+": Fatal with WriteThenGoexit neither returned nor ended its goroutine within 30s", desc)
+										hungOutsideScheduler = true
+										return false
+									}
+								case mode.panics:
+									func() {
+										defer func() {
+											if r := recover(); r == nil {
+												run.Report(key("no-panic"), desc+": the call returned without panicking", desc)
+											} else if fmt.Sprint(r) != msg {
+												panic(r)
+											}
+										}()
+										logger.Log(lvl, msg, zap.Int("n", e))
+									}()
+								case mode.direct == "core":
+									if ce := core.Check(zapcore.Entry{Level: lvl, Message: msg, Time: time.Unix(1700000000, 0)}, nil); ce != nil {
+										ce.Write(zap.Int("n", e))
+									}
+								case mode.direct == "slog":
+									r := slog.NewRecord(time.Unix(1700000000, 0), slog.LevelWarn, msg, 0)
+									r.AddAttrs(slog.Int("n", e))
+									_ = zapslog.NewHandler(core).Handle(context.Background(), r)
+								default:
 									logger.Log(lvl, msg, zap.Int("n", e))
-								}()
-							case mode.direct == "core":
-								if ce := core.Check(zapcore.Entry{Level: lvl, Message: msg, Time: time.Unix(1700000000, 0)}, nil); ce != nil {
-									ce.Write(zap.Int("n", e))
 								}
-							case mode.direct == "slog":
-								r := slog.NewRecord(time.Unix(1700000000, 0), slog.LevelWarn, msg, 0)
-								r.AddAttrs(slog.Int("n", e))
-								_ = zapslog.NewHandler(core).Handle(context.Background(), r)
-							default:
-								logger.Log(lvl, msg, zap.Int("n", e))
+							}
+							_ = logger.Sync()
+							return true
+						}
+						returned := false
+						if stuckTopo[topo] >= 8 {
+							continue // reported; the blocked threads of every further stuck case stay parked in the scheduler
+						}
+						if mode.goexit && (hungOutsideScheduler || stuckTopo[topo] > 0) {
+							continue // a call already hung in this mode: reported; every further case would wait out the guard again
+						}
+						if mode.goexit {
+							returned = logAll() // spawns goroutines of its own: outside the controlled scheduler
+						} else {
+							// under the controlled scheduler a call that never returns (a lock kept on an error path)
+							// is a deadlock verdict of this case instead of a hang of the enumeration
+							res := vsched.Run(nil, func() { returned = logAll() })
+							if res.Verdict != vsched.OK && res.Verdict != vsched.Panicked {
+								run.Report(key("call-does-not-return"), fmt.Sprintf("%s: the logging calls did not all return (%s)", desc, res.Blocked), desc)
+								returned = false
+								stuckTopo[topo]++
 							}
 						}
-						_ = logger.Sync()
-						return true
-					}
-					returned := false
-					if stuckTopo[topo] >= 8 {
-						continue // reported; the blocked threads of every further stuck case stay parked in the scheduler
-					}
-					if mode.goexit && (hungOutsideScheduler || stuckTopo[topo] > 0) {
-						continue // a call already hung in this mode: reported; every further case would wait out the guard again
-					}
-					if mode.goexit {
-						returned = logAll() // spawns goroutines of its own: outside the controlled scheduler
-					} else {
-						// under the controlled scheduler a call that never returns (a lock kept on an error path)
-						// is a deadlock verdict of this case instead of a hang of the enumeration
-						res := vsched.Run(nil, func() { returned = logAll() })
-						if res.Verdict != vsched.OK && res.Verdict != vsched.Panicked {
-							run.Report(key("call-does-not-return"), fmt.Sprintf("%s: the logging calls did not all return (%s)", desc, res.Blocked), desc)
-							returned = false
-							stuckTopo[topo]++
-						}
-					}
-					evals++
-					distinct[topo+label] = true
-					if !returned {
-						continue
-					}
-					// every destination received both entries, complete, in order
-					for i, s := range sinks {
-						if len(s.writes) != 2 {
-							run.Report(key("destination-skipped"), fmt.Sprintf("%s: destination %d received %d writes for 2 entries", desc, i, len(s.writes)), desc)
+						evals++
+						distinct[topo+label] = true
+						if !returned {
 							continue
 						}
-						for e := 0; e < 2; e++ {
-							w := string(s.writes[e])
-							if !strings.Contains(w, fmt.Sprintf(`"msg":"entry-%d"`, e)) || !strings.HasSuffix(w, "}\n") {
-								run.Report(key("destination-incomplete"), fmt.Sprintf("%s: destination %d entry %d got %q", desc, i, e, w), desc)
+						// every destination received both entries, complete, in order
+						for i, s := range sinks {
+							if len(s.writes) != 2 {
+								run.Report(key("destination-skipped"), fmt.Sprintf("%s: destination %d received %d writes for 2 entries", desc, i, len(s.writes)), desc)
+								continue
+							}
+							for e := 0; e < 2; e++ {
+								w := string(s.writes[e])
+								if !strings.Contains(w, fmt.Sprintf(`"msg":"entry-%d"`, e)) || !strings.HasSuffix(w, "}\n") {
+									run.Report(key("destination-incomplete"), fmt.Sprintf("%s: destination %d entry %d got %q", desc, i, e, w), desc)
+								}
 							}
 						}
-					}
-					if mode.direct != "" {
-						continue // no error output exists on these paths: delivery to every destination and a normal return are what is required
-					}
-					// the error output names every write error, once per failing entry
-					rep := eo.b.String()
-					for i, s := range sinks {
-						if s.writeErr != nil {
-							if c := strings.Count(rep, s.writeErr.Error()); c < 2 {
-								run.Report(key("write-error-not-reported"), fmt.Sprintf("%s: error %q of destination %d appears %d times on the error output for 2 failing entries: %q", desc, s.writeErr, i, c, rep), desc)
+						if mode.direct != "" {
+							continue // no error output exists on these paths: delivery to every destination and a normal return are what is required
+						}
+						// the error output names every write error, once per failing entry
+						rep := eo.b.String()
+						for i, s := range sinks {
+							if s.writeErr != nil {
+								if c := strings.Count(rep, s.writeErr.Error()); c < 2 {
+									run.Report(key("write-error-not-reported"), fmt.Sprintf("%s: error %q of destination %d appears %d times on the error output for 2 failing entries: %q", desc, s.writeErr, i, c, rep), desc)
+								}
 							}
 						}
-					}
-					anyWriteErr := false
-					for _, s := range sinks {
-						if s.writeErr != nil {
-							anyWriteErr = true
+						anyWriteErr := false
+						for _, s := range sinks {
+							if s.writeErr != nil {
+								anyWriteErr = true
+							}
 						}
-					}
-					if !anyWriteErr && strings.Contains(rep, "write error") {
-						run.Report(key("spurious-report"), fmt.Sprintf("%s: error output has a write error report although no write failed: %q", desc, rep), desc)
-					}
-					if lvl == zapcore.FatalLevel && !mode.goexit && fatals != 2 {
-						run.Report(key("fatal-hook"), fmt.Sprintf("%s: fatal hook ran %d times for 2 fatal entries", desc, fatals), desc)
+						if !anyWriteErr && strings.Contains(rep, "write error") {
+							run.Report(key("spurious-report"), fmt.Sprintf("%s: error output has a write error report although no write failed: %q", desc, rep), desc)
+						}
+						if lvl == zapcore.FatalLevel && !mode.goexit && fatals != 2 {
+							run.Report(key("fatal-hook"), fmt.Sprintf("%s: fatal hook ran %d times for 2 fatal entries", desc, fatals), desc)
+						}
 					}
 				}
 			}
@@ -317,7 +335,7 @@ func main() {
 	run.Assume = []string{
 		"field faults: marshaler error before / between / after children at every node of every tree with <= the stated number of nodes, unencodable reflected values (channel, failing json.Marshaler) as fields and as array elements, panicking Stringer / Error() / Errors(), nil-pointer Stringer and error (rendered as \"<nil>\" under the field's own key, which zap documents in encodeStringer/encodeError)",
 		"elements of the same array after a failing element are not required (zap's array marshalers stop at the first error; the statement speaks of other fields)",
-		"sink/core faults: every vector over {ok, write error, short write + error, sync error, nothing written + error} for tees (sinks bare and behind zapcore.Lock), multi-syncers and CombineWriteSyncers of k destinations (each case under the controlled scheduler, so a call that never returns is a deadlock verdict), two entries each, ending in every way an entry can end: info, error, dpanic (production), fatal with a hook standing in for os.Exit (the report must be on the error output when the hook starts), panic, dpanic under Development (recovered), fatal with WriteThenGoexit (own goroutine); and the same vectors through Core.Check + CheckedEntry.Write without a Logger and through the zapslog handler, where no error output is configured (every destination still receives the entry, the call returns)",
+		"sink/core faults: every vector over {ok, write error, short write + error, sync error, nothing written + error} for tees (sinks bare and behind zapcore.Lock), multi-syncers and CombineWriteSyncers of k destinations (each case under the controlled scheduler, so a call that never returns is a deadlock verdict), two entries each (vectors of <= 2 destinations also under the Logger's caller / stack-trace options, incl. a caller skip that leaves no frame to report), ending in every way an entry can end: info, error, dpanic (production), fatal with a hook standing in for os.Exit (the report must be on the error output when the hook starts), panic, dpanic under Development (recovered), fatal with WriteThenGoexit (own goroutine); and the same vectors through Core.Check + CheckedEntry.Write without a Logger and through the zapslog handler, where no error output is configured (every destination still receives the entry, the call returns)",
 		"field faults are also run with a user-supplied NewReflectedEncoder that has already written part of its output when it fails (a streaming encoder)",
 	}
 	cov := d.Coverage("field part: one evaluation = one log call on the real JSON core with a failing field somewhere in the tree, decoded and compared with the reference tree that contains the <key>Error member and every other field; sink part: one evaluation = one (topology, outcome vector, level) run of two entries; distinct = distinct output lines / outcome vectors")
